@@ -306,6 +306,20 @@ fn check_bld(h: &CaseH, b: &Bld) -> Verdict {
             }
         }
     }
+    // every window belongs to the element it was written under (from the building as generated, not from the parsed
+    // document): walls, roofs (skylights) and ceilings alike
+    for (_, s) in b.all_spaces() {
+        for bw in &s.walls {
+            for win in &bw.windows {
+                let (mw, mwin) = match (m.walls.iter().find(|x| x.name == bw.name), m.windows.iter().find(|x| x.name == win.name)) {
+                    (Some(a), Some(b)) => (a, b),
+                    _ => continue,
+                };
+                h.class(if matches!(bw.kind, gb::WallKind::Roof) { "window-parent-checked/roof" } else { "window-parent-checked/other" });
+                vensure!(mwin.wall == mw.id, "C03:window-parent", "window {:?} was written under {:?} but belongs to {:?} in the model", win.name, bw.name, m.walls.iter().find(|x| x.id == mwin.wall).map(|x| x.name.clone()));
+            }
+        }
+    }
     // shades against the building as generated (check_geometry above takes the parsed document as its source):
     // the area of every shade equals the area of the source polygon, corner order included
     for sh in &b.shades {
@@ -514,7 +528,7 @@ fn check_real(h: &CaseH, c: &RealTurn) -> Verdict {
 
 pub fn run(args: &Args) -> ! {
     let ctx = Ctx::new("C03", "exploration", args);
-    ctx.rule("generated buildings (1-3 storeys x 1-3 spaces with rectangular, L-shaped and star-shaped counter-clockwise outlines, space offsets in +-40 m, space azimuths 0 / 90 / 180 / random, global deviation 0 / 180 / random, walls on every outline edge, TOP/BOTTOM from the outline, walls with their own polygon, windows with offset/size/setback, rectangular and vertex shades; SPACE HEIGHT attribute equal to, absent or different from the storey height) and all convertible shipped projects (expectations derived from the parsed source data); oracle: global corner points from the source definition with DOE-2 semantics in f64 (corner sets within 1 cm), outward normals, azimuth convention, areas (shoelace), window size/offset/setback, shade corners; metamorphic: the same building with its global deviation increased by delta: every position turned by -delta, azimuths shifted, tilt/areas/volumes/U-values/K/n50 unchanged (shipped projects: AZIMUTH of BUILD-PARAMETERS rewritten in the text). Non-trivial: deviation != 0 and a space with non-zero offset.");
+    ctx.rule("generated buildings (1-3 storeys x 1-3 spaces with rectangular, L-shaped and star-shaped counter-clockwise outlines, space offsets in +-40 m, space azimuths 0 / 90 / 180 / random, global deviation 0 / 180 / random, walls on every outline edge, TOP/BOTTOM from the outline, walls with their own polygon, windows with offset/size/setback, rectangular and vertex shades; SPACE HEIGHT attribute equal to, absent or different from the storey height) and all convertible shipped projects (expectations derived from the parsed source data); oracle: global corner points from the source definition with DOE-2 semantics in f64 (corner sets within 1 cm), outward normals, azimuth convention, areas (shoelace), window size/offset/setback and the element each window belongs to (from the generated building), shade corners; metamorphic: the same building with its global deviation increased by delta: every position turned by -delta, azimuths shifted, tilt/areas/volumes/U-values/K/n50 unchanged (shipped projects: AZIMUTH of BUILD-PARAMETERS rewritten in the text). Non-trivial: deviation != 0 and a space with non-zero offset.");
     ctx.assume("space outlines are counter-clockwise (1292 of 1294 shipped outlines; clockwise ones are checked for position and counted, their normals are not asserted)");
     ctx.replay_regressions(replay_one);
     let files: Vec<String> = crate::util::files_with_ext(std::path::Path::new("/repo/hulc_tests/tests"), &["ctehexml", "cte"]).into_iter().map(|p| p.to_string_lossy().to_string()).collect();
@@ -530,7 +544,7 @@ pub fn run(args: &Args) -> ! {
     ctx.run_enum("real", &cases, false, check_real);
     ctx.run_prop("generated", ctx.tier().pick(1_500, 60_000), gb::bld, check_bld);
     ctx.run_prop("turned", ctx.tier().pick(400, 20_000), || (gb::bld(), prop_oneof![dec2(1.0, 359.0), Just(90.0f32), Just(180.0f32)]).prop_map(|(b, delta)| TurnCase { b, delta }), check_turn);
-    for c in ["generated/edge-wall/space/plain", "generated/edge-wall/space/offset", "generated/edge-wall/space/rotated+offset", "generated/top/space/plain", "generated/bottom/space/plain", "generated/own-polygon/space/plain", "generated/shade/rectangle", "generated/shade/vertices", "generated/window-with-setback", "generated/building/non-rectangular-outline", "generated/space-height-attribute-differs-from-storey", "real/convertible", "real/turned"] {
+    for c in ["generated/edge-wall/space/plain", "generated/edge-wall/space/offset", "generated/edge-wall/space/rotated+offset", "generated/top/space/plain", "generated/bottom/space/plain", "generated/own-polygon/space/plain", "generated/shade/rectangle", "generated/shade/vertices", "generated/window-with-setback", "generated/building/non-rectangular-outline", "generated/space-height-attribute-differs-from-storey", "generated/window-parent-checked/roof", "generated/window-parent-checked/other", "real/convertible", "real/turned"] {
         ctx.require_class(c);
     }
     ctx.finish()
